@@ -13,3 +13,5 @@ Extraction "../ocaml/wire.ml" default_sizes alt_sizes r_msk r_mpk r_usk r_xenc r
   ax_msk ax_mpk ax_usk ax_xenc ax_structure ax_header
   revisions_fuel maxlen
   mac_stream framing reframing_of mk_body mk_secret ubody_eqb.
+From CC Require Import DictModel.
+Extraction "../ocaml/dict.ml" dict_trace rm_new rm_insert rm_keep rm_remove rm_get_latest rm_len rm_count_elements.
